@@ -23,7 +23,7 @@ def is_private_name(name: str) -> bool:
 
 
 @st.composite
-def _members(draw: Any, namer: gen.Namer, depth: int, priv_bias: int, top_pool: tuple[str, ...] = ()) -> tuple[list[dict], dict | None]:
+def _members(draw: Any, namer: gen.Namer, depth: int, priv_bias: int, top_pool: tuple[str, ...] = (), tuple_targets: bool = False) -> tuple[list[dict], dict | None]:
     members: list[dict] = []
 
     used: set[str] = set()
@@ -60,7 +60,7 @@ def _members(draw: Any, namer: gen.Namer, depth: int, priv_bias: int, top_pool: 
             members[-1]["overloads"] = draw(st.integers(1, 3))
     if depth < 2:
         for _ in range(draw(st.sampled_from([0, 0, 1, 1, 2]))):
-            sub_members, sub_ctor = draw(_members(namer, depth + 1, priv_bias, top_pool))
+            sub_members, sub_ctor = draw(_members(namer, depth + 1, priv_bias, top_pool, tuple_targets))
             members.append(gt.klass(nm("Nest"), sub_members, ctor=sub_ctor))
     ctor = None
     if draw(st.booleans()):
@@ -69,6 +69,9 @@ def _members(draw: Any, namer: gen.Namer, depth: int, priv_bias: int, top_pool: 
         for p in cparams:
             if draw(st.booleans()):
                 ias.append({"name": nm("ia"), "ann": None, "value": p["name"]})
+                form = draw(st.sampled_from([None, None, None, "tuple_with_local", "local_first"])) if tuple_targets else None
+                if form:
+                    ias[-1]["form"] = form
         # an attribute defined in the class body AND in __init__ (first definition wins)
         body_attrs = [m for m in members if m["t"] == "attr"]
         if body_attrs and draw(st.integers(0, 2)) == 0:
@@ -99,7 +102,7 @@ def class_order(draw: Any, cls: dict) -> None:
 
 
 @st.composite
-def struct_package(draw: Any, pkgname: str, want_reexports: bool = True, priv_bias: int = 3, with_enums: bool = True) -> dict:
+def struct_package(draw: Any, pkgname: str, want_reexports: bool = True, priv_bias: int = 3, with_enums: bool = True, tuple_targets: bool = False, inherit: bool = False) -> dict:
     namer = gen.Namer()
     # ---- package tree
     pkgs: list[list[str]] = [[pkgname]]
@@ -120,7 +123,7 @@ def struct_package(draw: Any, pkgname: str, want_reexports: bool = True, priv_bi
                 if k == "func":
                     decls.append(gt.func(("_" if priv else "") + namer.fresh("fn"), [gt.param(namer.fresh("a"), "pos", ["int"], None)], ret=draw(st.sampled_from(SIMPLE_TYPES))))
                 elif k == "class":
-                    members, ctor = draw(_members(namer, 0, priv_bias, tuple(top_pool)))
+                    members, ctor = draw(_members(namer, 0, priv_bias, tuple(top_pool), tuple_targets))
                     decls.append(gt.klass(("_" if priv else "") + namer.fresh("Cls"), members, ctor=ctor))
                     class_order(draw, decls[-1])
                     top_pool.append(decls[-1]["name"].lstrip("_"))
@@ -134,6 +137,14 @@ def struct_package(draw: Any, pkgname: str, want_reexports: bool = True, priv_bi
                             ename = cand
                     decls.append(gt.enum(("_" if priv else "") + ename, variants))
                     top_pool.append(ename)
+            if inherit:
+                earlier: list[dict] = []
+                for d in decls:
+                    if d["t"] != "class":
+                        continue
+                    if earlier and draw(st.integers(0, 2)) == 0:
+                        d["bases"] = [["raw", draw(st.sampled_from(earlier))["name"]]]
+                    earlier.append(d)
             modules.append(gt.module([*p, mname], decls))
     # ---- re-exports (core forms: one re-export per declaration, in the module's package or an ancestor)
     inits: dict[str, list] = {}
